@@ -355,14 +355,44 @@ func checkVoteFunc(c *core.Ctx, sp voteSpec) {
 	}
 	// the voter's own +1 and insertion: dominated by the not-yet-voted flag
 	var flagIf *ssa.If
+	// phis of the counting loop that receive a constant true: the candidates for a not-yet-voted flag
+	regionFlag := map[*ssa.Phi]bool{}
+	for _, b := range fn.Blocks {
+		if !region[b] && b != clp.Header {
+			continue
+		}
+		for _, in := range b.Instrs {
+			if p, ok := in.(*ssa.Phi); ok {
+				for _, e := range p.Edges {
+					if k, isK := ir.ConstBool(e); isK && k {
+						regionFlag[p] = true
+					}
+				}
+			}
+		}
+	}
+	var fedByRegionFlag func(v ssa.Value, d int) bool
+	fedByRegionFlag = func(v ssa.Value, d int) bool {
+		p, ok := v.(*ssa.Phi)
+		if !ok || d > 6 {
+			return false
+		}
+		if regionFlag[p] {
+			return true
+		}
+		for _, e := range p.Edges {
+			if e != v && fedByRegionFlag(e, d+1) {
+				return true
+			}
+		}
+		return false
+	}
 	for _, cd := range ir.Conds(fn) {
 		if p, ok := cd.V.(*ssa.Phi); ok && !region[cd.If.Block()] {
 			if b, isB := p.Type().Underlying().(*types.Basic); isB && b.Kind() == types.Bool {
 				// the flag: has a constant-true incoming definition somewhere inside the counting loop
-				for _, l := range eng.PhiLeaves(nil, p) {
-					if k, isK := ir.ConstBool(l); isK && k {
-						flagIf = cd.If
-					}
+				if fedByRegionFlag(p, 0) {
+					flagIf = cd.If
 				}
 			}
 		}
@@ -389,54 +419,27 @@ func checkVoteFunc(c *core.Ctx, sp voteSpec) {
 		}
 	}
 	if flagIf == nil {
-		c.Broken("C25.count", fn, "not-yet-voted flag", c.P.Rel(fn.Pos()), "flag test not found")
-		return
-	}
-	flagGuard := eng.NamedGuard{Name: "not-yet-voted flag", G: func(cd ir.Cond) (bool, bool) {
-		if cd.If == flagIf {
-			return true, true // cd.V is the flag itself (negations are folded into the edge index)
-		}
-		return false, false
-	}}
-	eng.Dominates(c, "C25.count", fn, flagGuard, append(append([]ir.Sink{}, afterLoop...), inserts...), "voter's +1 and map insertion", nil)
-	// the flag's true definitions
-	notVoted := eng.NamedGuard{Name: sp.mapField + "[voter] absent", G: func(cd ir.Cond) (bool, bool) {
-		ok, _ := voted(func(v ssa.Value) bool {
-			if isVoter(v) {
-				return true
-			}
-			al, isAl := v.(*ssa.Alloc)
-			return isAl && ir.SingleStore(al) != nil && isVoter(ir.SingleStore(al))
-		})(cd)
-		return ok, false
-	}}
-	var trueDefs []ir.Sink
-	for _, b := range fn.Blocks {
-		if !region[b] && b != clp.Header {
-			continue
-		}
-		for _, in := range b.Instrs {
-			p, ok := in.(*ssa.Phi)
-			if !ok {
-				continue
-			}
-			if bt, isB := p.Type().Underlying().(*types.Basic); !isB || bt.Kind() != types.Bool {
-				continue
-			}
-			for i, e := range p.Edges {
-				if k, isK := ir.ConstBool(e); isK && k {
-					pred := b.Preds[i]
-					trueDefs = append(trueDefs, ir.Sink{Instr: p, Via: &ir.Edge{From: pred, Idx: indexOfSucc(pred, b)}, Note: "flag = true"})
+		// written without a flag: the voter's own +1 and the insertion stand directly under the test
+		// "the voter is not in the map yet"
+		direct := eng.NamedGuard{Name: sp.mapField + "[voter] absent", G: func(cd ir.Cond) (bool, bool) {
+			ok, _ := voted(func(v ssa.Value) bool {
+				if isVoter(v) {
+					return true
 				}
-			}
+				al, isAl := v.(*ssa.Alloc)
+				return isAl && ir.SingleStore(al) != nil && isVoter(ir.SingleStore(al))
+			})(cd)
+			return ok, false
+		}}
+		if len(ir.PassEdges(fn, direct.G)) == 0 {
+			c.Broken("C25.count", fn, "not-yet-voted flag", c.P.Rel(fn.Pos()), "flag test not found")
+			return
 		}
+		eng.Dominates(c, "C25.count", fn, direct, append(append([]ir.Sink{}, afterLoop...), inserts...), "voter's +1 and map insertion", nil)
 	}
-	if len(trueDefs) == 0 {
-		c.Broken("C25.count", fn, "flag = true definition", c.P.Rel(clp.Range.Pos()), "not found")
-	} else {
-		eng.Dominates(c, "C25.count", fn, notVoted, trueDefs, "flag = true (per iteration)", opt)
+	if flagIf != nil {
+		c25FlagPart(c, fn, flagIf, afterLoop, inserts, region, clp, voted, isVoter, sp.mapField, opt)
 	}
-
 	// (d) exactly once
 	if sp.fn == "CheckVotes" {
 		statusFalse := eng.NamedGuard{Name: "!voteInfo.Status", G: func(cd ir.Cond) (bool, bool) {
@@ -532,4 +535,55 @@ func loopRegion(lp eng.MapLoop) map[*ssa.BasicBlock]bool {
 		work = append(work, b.Succs...)
 	}
 	return region
+}
+
+// c25FlagPart: the not-yet-voted flag form — the voter's own +1 and the insertion are dominated by the flag
+// test, and the flag is set true only where the voter was looked up and not found.
+func c25FlagPart(c *core.Ctx, fn *ssa.Function, flagIf *ssa.If, afterLoop, inserts []ir.Sink, region map[*ssa.BasicBlock]bool, clp eng.MapLoop,
+	voted func(func(ssa.Value) bool) ir.Guard, isVoter func(ssa.Value) bool, mapField string, opt *eng.Opt) {
+	flagGuard := eng.NamedGuard{Name: "not-yet-voted flag", G: func(cd ir.Cond) (bool, bool) {
+		if cd.If == flagIf {
+			return true, true // cd.V is the flag itself (negations are folded into the edge index)
+		}
+		return false, false
+	}}
+	eng.Dominates(c, "C25.count", fn, flagGuard, append(append([]ir.Sink{}, afterLoop...), inserts...), "voter's +1 and map insertion", nil)
+	// the flag's true definitions
+	notVoted := eng.NamedGuard{Name: mapField + "[voter] absent", G: func(cd ir.Cond) (bool, bool) {
+		ok, _ := voted(func(v ssa.Value) bool {
+			if isVoter(v) {
+				return true
+			}
+			al, isAl := v.(*ssa.Alloc)
+			return isAl && ir.SingleStore(al) != nil && isVoter(ir.SingleStore(al))
+		})(cd)
+		return ok, false
+	}}
+	var trueDefs []ir.Sink
+	for _, b := range fn.Blocks {
+		if !region[b] && b != clp.Header {
+			continue
+		}
+		for _, in := range b.Instrs {
+			p, ok := in.(*ssa.Phi)
+			if !ok {
+				continue
+			}
+			if bt, isB := p.Type().Underlying().(*types.Basic); !isB || bt.Kind() != types.Bool {
+				continue
+			}
+			for i, e := range p.Edges {
+				if k, isK := ir.ConstBool(e); isK && k {
+					pred := b.Preds[i]
+					trueDefs = append(trueDefs, ir.Sink{Instr: p, Via: &ir.Edge{From: pred, Idx: indexOfSucc(pred, b)}, Note: "flag = true"})
+				}
+			}
+		}
+	}
+	if len(trueDefs) == 0 {
+		c.Broken("C25.count", fn, "flag = true definition", c.P.Rel(clp.Range.Pos()), "not found")
+	} else {
+		eng.Dominates(c, "C25.count", fn, notVoted, trueDefs, "flag = true (per iteration)", opt)
+	}
+
 }
